@@ -188,6 +188,7 @@ type clientScen struct {
 	createdAt uint64
 	lastUnreachUs int64
 	closeInvoked bool
+	closeDone    bool
 	burst    chan struct{}          // closed (and replaced) whenever a metadata response is delivered to the client
 	metaResp map[*simConn]map[int32]bool
 }
@@ -286,11 +287,51 @@ func scenClient(r *run) {
 			}
 		}()
 	}
+	// C12: at the close point the client is closed at once, whatever its callers are in the middle of (their
+	// calls must then return - with a result or an error - and nothing may panic)
+	closedEarly := make(chan struct{})
+	if c.CloseAt != nil {
+		go func() {
+			select {
+			case <-cs.r.closeNow:
+			case <-closedEarly:
+				return
+			}
+			cs.mu.Lock()
+			already := cs.closeInvoked
+			cs.closeInvoked = true
+			cs.mu.Unlock()
+			if already {
+				return
+			}
+			k.logf("client.Close() (close point, calls may be in progress)")
+			if err := client.Close(); err != nil {
+				k.logf("client.Close: %v", err)
+			}
+			cs.mu.Lock()
+			cs.closeDone = true
+			cs.mu.Unlock()
+			close(closedEarly)
+		}()
+	}
 	wg.Wait()
-	k.logf("client.Close()")
+	cs.mu.Lock()
+	early := cs.closeInvoked
 	cs.closeInvoked = true
-	if err := client.Close(); err != nil {
-		k.logf("client.Close: %v", err)
+	cs.mu.Unlock()
+	if early {
+		<-closedEarly
+	} else {
+		if c.CloseAt != nil {
+			close(closedEarly)
+		}
+		k.logf("client.Close()")
+		if err := client.Close(); err != nil {
+			k.logf("client.Close: %v", err)
+		}
+		cs.mu.Lock()
+		cs.closeDone = true
+		cs.mu.Unlock()
 	}
 	if err := client.Close(); err != sarama.ErrClosedClient {
 		r.violate("C12.double-close", "second Client.Close returned %v, expected ErrClosedClient", err)
@@ -620,7 +661,10 @@ func (cs *clientScen) onHang(dump string) {
 			flagged = true
 		}
 	}
-	if cs.closeInvoked {
+	cs.mu.Lock()
+	closeStuck := cs.closeInvoked && !cs.closeDone
+	cs.mu.Unlock()
+	if closeStuck {
 		cs.r.violate("C12.close-hang", "Client.Close did not return; parked: %v", frames)
 		flagged = true
 	}
@@ -639,6 +683,9 @@ type pIn struct {
 }
 
 func (cs *clientScen) post() {
+	if cs.c.Property == "C12" {
+		return // shutdown runs are judged by the C12 rules only; the linearizability check belongs to C15/C06
+	}
 	// A served response is applied by the call that requested it before that call returns. Which call
 	// that was is not observable, so the write's return stamp is the latest return among the app calls
 	// in progress when it was served (NewClient's own refresh: the moment NewClient returned). With a
